@@ -114,6 +114,44 @@ theorem eval_sqlJoin_slice {T : SqlTables} {ip : Nat → Bool} {c : SqlCtx} {f :
   simp only [SqlCtx.slice, hc, hk, sqlKids_slice_filter, sqlKids_slice_contiguous, sqlKids_slice_sql, hs,
     allSome_map_some, beq_self_eq_true, if_true, Option.map_some]
 
+/-- no element of a slice is a single child -/
+theorem sqlKids_slice_single (T : SqlTables) (ip : Nat → Bool) (f g : String) (k : Nat) (nodes : List Node) :
+    (sqlKids T ip (sliceKids f k nodes)).find? (fun kd => kd.field == g && kd.idx == none) = none := by
+  induction nodes generalizing k with
+  | nil => rfl
+  | cons n r ih =>
+    simp only [sliceKids, sqlKids, List.find?_cons]
+    rw [ih]; simp
+
+theorem sqlKids_slice_single' (T : SqlTables) (ip : Nat → Bool) (f g : String) (k : Nat) (nodes : List Node) :
+    (sqlKids T ip (sliceKids f k nodes)).find? (fun kd => kd.field == g && kd.idx.isNone) = none := by
+  induction nodes generalizing k with
+  | nil => rfl
+  | cons n r ih =>
+    simp only [sliceKids, sqlKids, List.find?_cons]
+    rw [ih]; simp
+
+theorem sqlKids_app (T : SqlTables) (ip : Nat → Bool) : (a b : Kids) →
+    sqlKids T ip (appKids a b) = sqlKids T ip a ++ sqlKids T ip b
+  | .nil, b => by simp [appKids, sqlKids]
+  | .cons f i n r, b => by simp [appKids, sqlKids, sqlKids_app T ip r b]
+
+theorem goKids_app {T : PosTables} : (a b : Kids) → (ka kb : List KidPE) → goKids T a = some ka →
+    goKids T b = some kb → goKids T (appKids a b) = some (ka ++ kb)
+  | .nil, b, ka, kb, ha, hb => by
+    simp only [goKids, Option.some.injEq] at ha; subst ha; simpa [appKids] using hb
+  | .cons f i n r, b, ka, kb, ha, hb => by
+    simp only [goKids] at ha
+    cases hn : goPosEnd T n with
+    | none => simp [hn] at ha
+    | some pe =>
+      cases hr : goKids T r with
+      | none => simp [hn, hr] at ha
+      | some kr =>
+        simp only [hn, hr, Option.some.injEq] at ha
+        subst ha
+        simp [appKids, goKids, hn, goKids_app r b kr kb hr hb]
+
 /-- the position view of the elements of a slice field -/
 def kidsPE (f : String) : Nat → List (Int × Int) → List KidPE
   | _, [] => []
